@@ -221,4 +221,81 @@ def St.quiescent (s : St) : Bool :=
   s.pend.isEmpty && s.batch.isEmpty && s.fq.isEmpty &&
   ((s.wpc == .select && s.chan.isEmpty) || s.wpc == .exited)
 
+
+/-! ### `client.getCoalescer` (internal/remoteclient/client.go): lazy, double-checked creation of THE
+coalescer of a destination.  Everything above models ONE coalescer per destination; this is the
+code that makes it so.  Threads: any number of first senders.  `mu` is `coalescersMu`; the program
+counter of the thread inside the critical section lives in the mutex field (mutual exclusion is the
+contract of sync.Mutex).  `recheck = false` is the variant WITHOUT the second lookup under the lock
+(used only to show that the second lookup is what the invariant rests on). -/
+namespace GC
+
+inductive CsPc where
+  | recheck | create | unlock
+  deriving DecidableEq, Repr
+
+inductive TPc where
+  | lookup   -- `if c, ok := r.coalescers.Get(dest); ok { return c }` (lock-free fast path), then NetClient
+  | lock     -- `r.coalescersMu.Lock()`
+  | inCS
+  | done
+  deriving DecidableEq, Repr
+
+structure Thread where
+  pc : TPc := .lookup
+  got : Option Nat := none       -- the coalescer this call returned
+  deriving DecidableEq, Repr
+
+structure GSt where
+  map : Option Nat := none        -- `r.coalescers` entry of the destination
+  mu : Option (Nat × CsPc) := none
+  created : Nat := 0              -- number of coalescers (writer goroutines) started so far
+  threads : List Thread := []
+  deriving DecidableEq, Repr
+
+inductive GAct where
+  | look (t : Nat)      -- thread t: fast-path lookup
+  | acquire (t : Nat)   -- thread t: Lock() succeeds (mutex free)
+  | cs                  -- the lock holder executes its next statement
+  deriving DecidableEq, Repr
+
+def setThread (s : GSt) (t : Nat) (th : Thread) : GSt := { s with threads := s.threads.set t th }
+
+def gstep (recheck : Bool) (s : GSt) : GAct → GSt
+  | .look t =>
+    match s.threads[t]? with
+    | some th =>
+      if th.pc ≠ .lookup then s else
+      match s.map with
+      | some c => setThread s t { pc := .done, got := some c }
+      | none => setThread s t { th with pc := .lock }
+    | none => s
+  | .acquire t =>
+    match s.threads[t]?, s.mu with
+    | some th, none =>
+      if th.pc ≠ .lock then s
+      else { setThread s t { th with pc := .inCS } with mu := some (t, if recheck then .recheck else .create) }
+    | _, _ => s
+  | .cs =>
+    match s.mu with
+    | some (t, .recheck) =>
+      match s.map with
+      | some c => { setThread s t { pc := .inCS, got := some c } with mu := some (t, .unlock) }
+      | none => { s with mu := some (t, .create) }
+    | some (t, .create) =>
+      -- `coalescer := newCoalescer(...)` (starts a writer goroutine); `r.coalescers.Set(dest, coalescer)`
+      { setThread s t { pc := .inCS, got := some s.created } with
+        map := some s.created, created := s.created + 1, mu := some (t, .unlock) }
+    | some (t, .unlock) =>
+      match s.threads[t]? with
+      | some th => { setThread s t { th with pc := .done } with mu := none }
+      | none => { s with mu := none }
+    | none => s
+
+def ginit (n : Nat) : GSt := { threads := List.replicate n {} }
+
+def grun (recheck : Bool) (s : GSt) (acts : List GAct) : GSt := acts.foldl (gstep recheck) s
+
+end GC
+
 end GoaktVerif.Model.C27
